@@ -13,7 +13,7 @@ else
   rsync -a --exclude .git /repo/ "$TARGET"/
   (cd "$TARGET" && git init -q . >/dev/null 2>&1; git apply "$P") || { echo "PATCH DOES NOT APPLY"; rm -rf "$TARGET"; exit 4; }
 fi
-cd /verif
+cd ${VERIF_DIR:-/verif}
 run_one() { i=$1; T=$2
   out=$(CIJ_REPO=$T CIJSA_EVIDENCE_DIR=$(mktemp -d /tmp/seedev.XXXXXX) ./check C$i --tier quick 2>&1); rc=$?
   v=$(echo "$out" | grep -c '^VIOLATION')
